@@ -56,7 +56,7 @@ CLAIMED = {
         "DESIGN.md 2/C16"),
     "C17": (
         "Day series on every civil date of 1..9998 (thorough all, quick windows): day officer, twelve spirits (both routes), 28 mansions (both routes agree, luminary = weekday, advance by one across every adjacent pair), day nine star (accept-set where the two classical alignments disagree), six-day star incl. every leap-month day, moon phase, minor Ren; hour series (nine star, twelve spirits, minor Ren) on all 24 clock hours of 2000 days (quick 180); each sexagenary month's star also through next(+-1), next(12) from its neighbours; year star for all years -1..9999 (both year types), month star for every sexagenary month and every lunar month.",
-        "Known finding: the 160 reform-era dates (C02) inherit a wrong day pillar. At 23:00 the hour nine star may use either day's branch (the two hour views differ by convention); day nine star of civil year 1 needs the solstice of 1 BC.",
+        "On every hour of the hour series the already-resolved lunar hour is also stepped by +1, +2, -1 double-hours inside the day and must carry the stars of the hour built afresh from the clock (two routes to one state). Known finding: the 160 reform-era dates (C02) inherit a wrong day pillar. At 23:00 the hour nine star may use either day's branch (the two hour views differ by convention); day nine star of civil year 1 needs the solstice of 1 BC.",
         "explicit-state enumeration of all dates/hours/years against recurrences typed from the classical rules",
         "DESIGN.md 2/C17"),
     "C18": (
